@@ -143,3 +143,33 @@ Proof.
   intros U k l Hk Hl.
   destruct k as [|[|[|k]]]; [| | |lia]; (destruct l as [|[|[|l]]]; [| | |lia]); apply Ceq; apply Qc_is_canon; vm_compute; reflexivity.
 Qed.
+
+(* Whole programs: any sequence of generated GaussianModes operations (the seven element-wise methods and apply_u) on any register *)
+From SFV Require Import C07.GaussProgram.
+Section Programs.
+Variable K : Type.
+Variables (k0 k1 : K) (kadd kmul ksub : K -> K -> K) (kopp : K -> K).
+Hypothesis Kring : ring_theory k0 k1 kadd kmul ksub kopp (@eq K).
+Notation wf := (GaussPhysical.wf K k0 k1 kadd kmul ksub kopp).
+Notation photons := (GaussPhysical.photons K kadd kmul).
+Notation sumn := (GaussPhysical.sumn K k0 kadd).
+Notation grun := (grun K k0 k1 kadd kmul ksub kopp).
+Theorem C07_gauss_program_physical : forall (prog : list (gop K)) (s : st K),
+  Forall (in_range K (nlen s)) prog -> wf s -> wf (grun prog s) /\ nlen (grun prog s) = nlen s.
+Proof.
+  intros prog s F W. split; [exact (grun_wf K k0 k1 kadd kmul ksub kopp Kring prog s F W)|exact (grun_nlen K k0 k1 kadd kmul ksub kopp prog s)].
+Qed.
+Theorem C07_gauss_passive_program_photon_number : forall (prog : list (gop K)) (s : st K),
+  Forall (passive K k0 k1 kadd kmul ksub kopp (nlen s)) prog -> wf s ->
+  sumn (nlen s) (photons (grun prog s)) = sumn (nlen s) (photons s).
+Proof. exact (grun_passive_total K k0 k1 kadd kmul ksub kopp Kring). Qed.
+End Programs.
+Print Assumptions C07_gauss_program_physical.
+Print Assumptions C07_gauss_passive_program_photon_number.
+(* non-vacuity: a rotation by the angle with (cos, sin) = (3/5, 4/5) followed by a beam splitter with the same values is a passive program on 2 modes *)
+Example C07_passive_program_exists :
+  Forall (passive Qc 0%Qc 1%Qc Qcplus Qcmult Qcminus Qcopp 2)
+    [GRotate Qc (mkC (Q2Qc (3#5)) (Q2Qc (4#5))) 1; GBeamsplit Qc (mkC (Q2Qc (3#5)) (Q2Qc (4#5))) (Q2Qc (4#5)) (Q2Qc (3#5)) 0 1].
+Proof.
+  repeat constructor; simpl; try lia; try discriminate; apply Qc_is_canon; vm_compute; reflexivity.
+Qed.
